@@ -8,6 +8,13 @@ def tieOf (j : Json) : Tie :=
   match (getStr j "tie").toOption with
   | some "away" => .away | some "up" => .up | some "down" => .down | _ => .even
 
+/-- `cfg.stoch` (use_stochastic_rounding), `cfg.phase` (K.learning_phase() at the call), draws `cfg.u`,
+    `cfg.u2`; all optional: absent = the plain deterministic quantizer -/
+def roundModeOf (cfg : Json) : RoundMode :=
+  let b (k : String) : Bool := match (getBool cfg k).toOption with | some v => v | none => false
+  let q (k : String) : Rat := match (getRat cfg k).toOption with | some v => v | none => 0
+  { stoch := b "stoch", phase := b "phase", u := q "u", u2 := q "u2" }
+
 def rats (l : List Rat) : Json := Json.arr (l.map ratToJson).toArray
 
 def modeOf (j : Json) : Option SigMode :=
@@ -163,6 +170,7 @@ def handle (j : Json) : Except String Json := do
   let op ← getStr j "op"
   let t := tieOf j
   let cfg ← j.getObjVal? "cfg"
+  let rm := roundModeOf cfg
   match op with
   | "hist" => handleHist j t
   | "qbits" =>
@@ -173,13 +181,13 @@ def handle (j : Json) : Except String Json := do
     let al ← getOptRat cfg "alpha"
     let c : BitsCfg := { bits := b, integer := i, symmetric := sy, keepNeg := kn, alpha := al }
     let xs ← getRatList j "xs"
-    pure <| Json.mkObj [("ys", rats (xs.map (qbits t c))), ("min", ratToJson (qbitsMin c)),
+    pure <| Json.mkObj [("ys", rats (xs.map (qbitsS t rm c))), ("min", ratToJson (qbitsMin c)),
       ("max", ratToJson (qbitsMax c)),
       ("range", match qbitsRange c with | some l => rats l | none => Json.null)]
   | "qrelu" =>
     let c ← reluCfgOf cfg
     let xs ← getRatList j "xs"
-    pure <| Json.mkObj [("ys", rats (xs.map (qreluU t c))), ("min", ratToJson (qreluMin c)),
+    pure <| Json.mkObj [("ys", rats (xs.map (qreluUS t rm c))), ("min", ratToJson (qreluMin c)),
       ("max", ratToJson (qreluMax c)),
       ("range", match qreluRange c with | some l => rats l | none => Json.null)]
   | "qrelusig" =>
@@ -187,7 +195,7 @@ def handle (j : Json) : Except String Json := do
     let c ← reluCfgOf cfg
     let ss ← getRatList j "ss"
     let yx ← yxOf j (fun m => qreluSigX t c noSigma m)
-    pure <| Json.mkObj [("ys", rats (ss.map (qreluSigU t c))), ("yx", yx),
+    pure <| Json.mkObj [("ys", rats (ss.map (qreluSigUS t rm c))), ("yx", yx),
       ("min", ratToJson (qreluMin c)), ("max", ratToJson (qreluMax c)), ("range", Json.null)]
   | "qlinear_pc" =>
     let b ← getInt cfg "bits"
@@ -226,7 +234,7 @@ def handle (j : Json) : Except String Json := do
         pure o.effective
       | _ => pure c0
     let xs ← getRatList j "xs"
-    pure <| Json.mkObj [("ys", rats (xs.map (qlinear t c))), ("min", ratToJson (qlinearMin c)),
+    pure <| Json.mkObj [("ys", rats (xs.map (qlinearS t rm c))), ("min", ratToJson (qlinearMin c)),
       ("max", ratToJson (qlinearMax c)), ("range", rats (qlinearRange c))]
   | "qtanh" =>
     let bits ← getInt cfg "bits"
@@ -234,7 +242,7 @@ def handle (j : Json) : Except String Json := do
     let ps ← getRatList j "ps"
     let m := twoPow (bits - 1)
     let yx ← yxOf j (fun md => qtanhX t bits sym noSigma md)
-    pure <| Json.mkObj [("ys", rats (ps.map (qtanhP t bits sym))), ("yx", yx),
+    pure <| Json.mkObj [("ys", rats (ps.map (qtanhPS t rm bits sym))), ("yx", yx),
       ("min", ratToJson (((-m + (if sym then 1 else 0) : Int) : Rat) / (m : Rat))),
       ("max", ratToJson (((m - 1 : Int) : Rat) / (m : Rat)))]
   | "qsigmoid" =>
@@ -243,7 +251,7 @@ def handle (j : Json) : Except String Json := do
     let ps ← getRatList j "ps"
     let m := twoPow bits
     let yx ← yxOf j (fun md => qsigmoidX t bits sym noSigma md)
-    pure <| Json.mkObj [("ys", rats (ps.map (qsigmoidP t bits sym))), ("yx", yx),
+    pure <| Json.mkObj [("ys", rats (ps.map (qsigmoidPS t rm bits sym))), ("yx", yx),
       ("min", ratToJson (((if sym then 1 else 0 : Int) : Rat) / (m : Rat))),
       ("max", ratToJson (((m - 1 : Int) : Rat) / (m : Rat)))]
   | _ => throw s!"unknown op {op}"
